@@ -423,3 +423,16 @@ func rulePJSON(c *Ctx) {
 	pEngine(c)
 	runP(c, "P-json", marshalEntries, 15, 20)
 }
+
+var codecEntries = []entrySpec{
+	{"bscript", "", "EncodeParts"}, {"bscript", "", "PushDataPrefix"}, {"bscript", "", "DecodeParts"}, {"bscript", "", "DecodeStringParts"},
+	{"bscript", "", "NewFromASM"}, {"bscript", "", "NewFromHexString"}, {"bscript", "*Script", "ToASM"}, {"bscript", "*Script", "String"},
+	{"bscript", "*Script", "MarshalJSON"}, {"bscript", "*Script", "UnmarshalJSON"}, {"bscript", "", "MinPushSize"},
+	{"bscript", "*Script", "AppendPushData"}, {"bscript", "*Script", "AppendPushDataHexString"}, {"bscript", "*Script", "AppendOpcodes"},
+	{"bscript/interpreter", "*DefaultOpcodeParser", "Parse"}, {"bscript/interpreter", "*DefaultOpcodeParser", "Unparse"},
+}
+
+func rulePCodec(c *Ctx) {
+	pEngine(c)
+	runP(c, "P-codec", codecEntries, 15, 40)
+}
